@@ -1,7 +1,7 @@
 (* C08 -- npc is monotone in the partial p-values and rank based; shapes are validated.
-   Statements only; proofs in Proofs/NpcProofs.v.  (Symmetry under relabelling the tests is asserted on the
-   implementation and the model by the correspondence run; it is not proved here: C08_partial.) *)
-From PV Require Import Lib.Base Model.Npc Proofs.NpcProofs.
+   Statements only; proofs in Proofs/NpcProofs.v and Proofs/NpcRelabel.v. *)
+From PV Require Import Lib.Base Model.Npc Proofs.NpcProofs Proofs.NpcRelabel.
+From Coq Require Import Permutation.
 Open Scope Q_scope.
 
 (* the global p-value never decreases when the observed combined statistic decreases, which is what raising
@@ -30,6 +30,15 @@ Theorem C08_rank_invariance : forall (f : Q -> Q) (col : list Q) (x : Q),
   count_lt (map f col) (f x) = count_lt col x /\ count_ge (map f col) (f x) = count_ge col x.
 Proof. intros f col x H. split; [exact (count_lt_increasing f col x H)|exact (count_ge_increasing f col x H)]. Qed.
 Print Assumptions C08_rank_invariance.
+
+(* symmetry: relabelling the partial tests (any permutation [ord] of the columns, applied to the observed
+   p-values and to every row of distr) leaves the global p-value unchanged, for Fisher, Liptak and Tippett *)
+Theorem C08_npc_symmetric_under_relabelling : forall c p distr plus1 ord,
+  symmetric c = true -> Permutation ord (seq 0 (length p)) ->
+  forallb (fun r => Nat.eqb (length r) (length p)) distr = true ->
+  npc (take_cols ord p) (map (take_cols ord) distr) c plus1 = npc p distr c plus1.
+Proof. exact npc_relabel. Qed.
+Print Assumptions C08_npc_symmetric_under_relabelling.
 
 (* shapes that disagree, or fewer than two p-values, are rejected with ValueError *)
 Theorem C08_npc_rejects_bad_shapes : forall p distr c plus1,
